@@ -36,6 +36,12 @@ LOOP_REASONS = {
                              "exactly the bytes read so far, which makes the exit test true (C20.term.fill-eof)",
     "Reservoir::fill|loop": "one read of the source per pass; ends when a read returns 0 (finite source; the discard buffer has length 0)",
 }
+# `while` and `loop` are one kind in the inventory (a `while c` is a `loop` that starts with `if !c { break }`)
+_merged = {}
+for _k, _v in LOOP_REASONS.items():
+    _f = _k.rsplit("|", 1)[0] + "|loop"
+    _merged[_f] = (_merged[_f] + "; " + _v) if _f in _merged else _v
+LOOP_REASONS = _merged
 PANIC_REASONS = {
     "cover::compute_epoch_info|assert": "arith: epoch_size = num_kmers / num_epochs, so epoch_size * num_epochs <= num_kmers on the path that asserts",
     "cover::pick_best_segment|expect": "caller handles the empty sample / empty epoch first (create::non-empty-sample-before-picking)",
